@@ -4,11 +4,8 @@ import os, re, shutil, subprocess, sys, time, json
 
 SRC, REF = "/tmp/tr1/src", "/tmp/tr1/src_ref"
 VERIF = "/tmp/tr1/verif"
-MODS = ["EvalexprVerif.Proofs.AgreeFnError", "EvalexprVerif.Proofs.AgreeFnValue", "EvalexprVerif.Proofs.AgreeFnOperator"]
-if os.path.exists(os.path.join(VERIF, "lean/EvalexprVerif/Proofs/AgreeFnTree.lean")):
-    MODS.append("EvalexprVerif.Proofs.AgreeFnTree")
-if os.path.exists(os.path.join(VERIF, "lean/EvalexprVerif/Proofs/AgreeFnContext.lean")):
-    MODS.append("EvalexprVerif.Proofs.AgreeFnContext")
+import glob
+MODS = sorted("EvalexprVerif.Proofs." + os.path.basename(f)[:-5] for f in glob.glob(os.path.join(VERIF, "lean/EvalexprVerif/Proofs/AgreeFn*.lean")))
 
 
 def restore():
